@@ -76,10 +76,19 @@ Inductive skind :=
 | KFile      (* has .read(): file-like (WSGI) / async file-like (ASGI) *)
 | KIter.     (* iterable (WSGI) / async iterable (ASGI) *)
 
+(* how a scripted failure manifests itself.  The framework's streaming code makes no
+   distinction (it is a try/finally, not an except clause), so the model does not either -
+   which is the point: the theorems hold for every kind. *)
+Inductive fault :=
+| FException        (* an Exception subclass is raised *)
+| FBaseException    (* a BaseException that is not an Exception (KeyboardInterrupt-like) *)
+| FCancel.          (* asyncio.CancelledError: raised by send()/read(), or the server cancels
+                       the app task while it is parked in send() *)
+
 Record stream := {
   k_kind : skind;
   k_chunks : list (option bytes);   (* successive results of read() / next(); None = a None item *)
-  k_raises : bool;                  (* after the chunks: raise (true) or end of stream (false) *)
+  k_raises : option fault;          (* after the chunks: fail this way (Some) or end of stream *)
   k_has_close : bool
 }.
 
@@ -217,6 +226,9 @@ Record served := {
   sv_closes : nat             (* close() calls that reached the application's stream *)
 }.
 
+Definition raises_b (s : stream) : bool :=
+  match k_raises s with Some _ => true | None => false end.
+
 Definition is_nil_b (b : bytes) : bool := match b with [] => true | _ => false end.
 Definition isSomeS (o : option stream) : bool := match o with Some _ => true | None => false end.
 Definition isSomeC (o : option str) : bool := match o with Some _ => true | None => false end.
@@ -235,12 +247,12 @@ Definition serve (b : wbody) : served :=
   match b with
   | WList l => {| sv_chunks := l; sv_raised := false; sv_reads := 0; sv_closes := 0 |}
   | WIter s =>
-    let '(cs, r, n) := drain false (k_chunks s) (k_raises s) in
+    let '(cs, r, n) := drain false (k_chunks s) (raises_b s) in
     {| sv_chunks := cs; sv_raised := r; sv_reads := n;
        sv_closes := if k_has_close s then 1 else 0 |}
   | WCloseable s | WWrapped s =>
     (* CloseableStreamIterator.close / the server's file wrapper: stream.close() if any *)
-    let '(cs, r, n) := drain true (k_chunks s) (k_raises s) in
+    let '(cs, r, n) := drain true (k_chunks s) (raises_b s) in
     {| sv_chunks := cs; sv_raised := r; sv_reads := n;
        sv_closes := if k_has_close s then 1 else 0 |}
   end.
@@ -332,7 +344,7 @@ Definition asgi_emit (i : input) (fail_at : option nat) : option asgi_out :=
           let start := AStart code (finish_headers h0 (Some default_media_type)) in
           if send_ok fail_at 0 then
             let file := match k_kind s with KFile => true | KIter => false end in
-            let '(ev, r, rd, n) := stream_loop file (k_chunks s) (k_raises s) fail_at 1 in
+            let '(ev, r, rd, n) := stream_loop file (k_chunks s) (raises_b s) fail_at 1 in
             let closes := if k_has_close s then 1%nat else 0%nat in    (* finally: *)
             if r then Some {| ao_events := start :: ev; ao_raised := true; ao_reads := rd;
                               ao_closes := closes |}
@@ -346,6 +358,10 @@ Definition asgi_emit (i : input) (fail_at : option nat) : option asgi_out :=
       end
     end
   end.
+
+(* the send fault carries its kind too; the emission does not depend on it *)
+Definition asgi_emit_f (i : input) (fa : option (nat * fault)) : option asgi_out :=
+  asgi_emit i (option_map fst fa).
 
 (* ================================================================== building the response
    in several steps: assignments to text / data / media / content_type interleaved with early
